@@ -173,13 +173,20 @@ def gen_settings(rng, max_pto=2, allow_n3lo=False, cheap=False):
         th["TMC"] = 2
     # --- scale variations
     sv = wchoice(rng, [("absent", 2), ("TT", 2), ("TF", 1.5), ("FT", 1.5), ("FF", 3)])
-    if pto >= 2 and rng.random() < 0.5:
+    if pto >= 2 and rng.random() < 0.3:
         sv = "FF"
     if pto >= 3:
         sv = "FF"
     if sv != "absent":
         th["RenScaleVar"] = sv[0] == "T"
         th["FactScaleVar"] = sv[1] == "T"
+    if pto >= 2 and th.get("FactScaleVar", True) is not False:
+        # NNLO with factorisation-scale variations: the memo fill costs ~n² convolutions per label,
+        # so use a small grid and spend the budget on having *several* points share the memo
+        grid = list(rng.choice(GRIDS_LOG[:2]))
+        ob["interpolation_xgrid"] = grid
+        ob["interpolation_is_log"] = True
+        ob["interpolation_polynomial_degree"] = rng.randint(1, min(3, len(grid) - 2))
     # --- masses and thresholds
     if rng.random() < 0.3:
         th["kcThr"] = wchoice(rng, [(1.0, 1), (2.0, 1), (0.8, 1)])
